@@ -230,7 +230,11 @@ EvalElts(elts, i, Om, c, outer) ==
                  IN IF c.dev2 THEN LeftJoinDev(Om, B, LAMBDA m : AllHold(FS, m, c), pv)
                     ELSE LeftJoin(Om, B, LAMBDA m : AllHold(FS, m, c))
            [] e.t = "minus"  -> Minus(Om, EvalGroup(e.g, c, outer))
-           [] e.t = "bind"   -> Extend(Om, e.v, LAMBDA m : EvalExpr(e.e, m, c))
+           \* (under the pushdown deviation the expression of a BIND still does not see the bindings pushed in from outside, unless the group's
+           \*  own pattern mentions the variable: evalExtend forgets them)
+           [] e.t = "bind"   -> LET pv == UNION {VarsOfElt(elts[j]) : j \in 1..(i - 1)}
+                                    see(m) == IF c.dev THEN [v \in (DOMAIN m \ (DOMAIN outer \ pv)) |-> m[v]] ELSE m
+                                IN Extend(Om, e.v, LAMBDA m : EvalExpr(e.e, see(m), c))
            \* named deviation KF_C04_pushdown (c.dev): a nested group joined after other elements is evaluated once per
            \* solution so far, with that solution's bindings visible inside it (rdflib's lazy join)
            \* - where that join is one rdflib evaluates lazily (LazyJoinAt), and nowhere else
